@@ -2,10 +2,11 @@
    that tie the per-property results together.  Statements only; every proof is
    `exact <lemma from Proofs/DnsPipeline.v>`.
 
-   dns_step mac c st t_ns t_s client port local tcp b u id eo = Ok (st', out, qs):
+   dns_step mac c st t_ns t_ins t_s client port local tcp b u id eo = Ok (st', out, qs):
      c      configuration: ACL rules, route table, and which two buckets a source hashes to
      st     cache (+ the packets behind its abstract entries), 256 bucket timestamps, cookie keys
-     t_ns   tokio clock (cache), t_s wall clock in seconds (limiter)
+     t_ns   tokio clock when the cache is consulted, t_ins when the resolver's result is stored;
+            t_s wall clock in seconds (limiter)
      client/port/local/tcp   the peer, the receiving address, the transport
      b      the query octets;  u  what the upstream answers if asked (over UDP / over TCP)
      id, eo values the implementation picks: upstream query id, EDNS options of the reply
@@ -25,19 +26,19 @@ From Erbium Require Model.Acl Model.DnsRoute Model.Bucket Model.Cookie Model.Dns
    two different ones of the 256, the wall clock is u32 seconds >= capacity/rate, the peers are
    IP sockets, and an upstream message carries fewer than 65535 additional records (any message
    of at most 65535 octets does: a record takes at least 11). *)
-Theorem D01_total : forall mac c st t_ns t_s client port local tcp b u id eo,
+Theorem D01_total : forall mac c st t_ns t_ins t_s client port local tcp b u id eo,
   cfg_ok c -> st_ok t_s st ->
   Bucket.window Bucket.CAP Bucket.RATE <= t_s -> t_s < pow2 32 -> is_ip client -> is_ip local ->
   bytes_ok b = true -> up_ok u -> id < 65536 -> wf_opts eo = true ->
   exists st' out qs,
-    dns_step mac c st t_ns t_s client port local tcp b u id eo = Ok (st', out, qs) /\ st_ok t_s st'.
+    dns_step mac c st t_ns t_ins t_s client port local tcp b u id eo = Ok (st', out, qs) /\ st_ok t_s st'.
 Proof. exact dns_step_total. Qed.
-Check D01_total : forall mac c st t_ns t_s client port local tcp b u id eo,
+Check D01_total : forall mac c st t_ns t_ins t_s client port local tcp b u id eo,
   cfg_ok c -> st_ok t_s st ->
   Bucket.window Bucket.CAP Bucket.RATE <= t_s -> t_s < pow2 32 -> is_ip client -> is_ip local ->
   bytes_ok b = true -> up_ok u -> id < 65536 -> wf_opts eo = true ->
   exists st' out qs,
-    dns_step mac c st t_ns t_s client port local tcp b u id eo = Ok (st', out, qs) /\ st_ok t_s st'.
+    dns_step mac c st t_ns t_ins t_s client port local tcp b u id eo = Ok (st', out, qs) /\ st_ok t_s st'.
 Print Assumptions D01_total.
 
 (* the invariant survives the passing of time *)
@@ -52,20 +53,20 @@ Print Assumptions D01_invariant_monotone.
    or, over UDP only, the rate limiter withheld it) or a strictly well-formed REFUSED carrying its
    id and question and no records.  Lifts C08_dns_gate: "never forwarded upstream nor answered
    from cache". *)
-Theorem D02_acl : forall mac c st t_ns t_s client port local tcp b u id eo st' out qs,
+Theorem D02_acl : forall mac c st t_ns t_ins t_s client port local tcp b u id eo st' out qs,
   Acl.wf_rules (c_acls c) = true -> Acl.wf_addr client = true ->
   (~ exists r, Acl.first_match (c_acls c) client r /\ Acl.permits r Acl.OpDns = true) ->
   bytes_ok b = true -> wf_opts eo = true ->
-  dns_step mac c st t_ns t_s client port local tcp b u id eo = Ok (st', out, qs) ->
+  dns_step mac c st t_ns t_ins t_s client port local tcp b u id eo = Ok (st', out, qs) ->
   qs = [] /\ s_cache st' = s_cache st /\ s_store st' = s_store st /\
   (out = None /\ (tcp = true -> forall q, decode b <> Ok q) \/
    exists bytes q r, out = Some bytes /\ decode b = Ok q /\ strict_decode bytes = Some r /\ refused_reply_for q r 5).
 Proof. exact d02_acl. Qed.
-Check D02_acl : forall mac c st t_ns t_s client port local tcp b u id eo st' out qs,
+Check D02_acl : forall mac c st t_ns t_ins t_s client port local tcp b u id eo st' out qs,
   Acl.wf_rules (c_acls c) = true -> Acl.wf_addr client = true ->
   (~ exists r, Acl.first_match (c_acls c) client r /\ Acl.permits r Acl.OpDns = true) ->
   bytes_ok b = true -> wf_opts eo = true ->
-  dns_step mac c st t_ns t_s client port local tcp b u id eo = Ok (st', out, qs) ->
+  dns_step mac c st t_ns t_ins t_s client port local tcp b u id eo = Ok (st', out, qs) ->
   qs = [] /\ s_cache st' = s_cache st /\ s_store st' = s_store st /\
   (out = None /\ (tcp = true -> forall q, decode b <> Ok q) \/
    exists bytes q r, out = Some bytes /\ decode b = Ok q /\ strict_decode bytes = Some r /\ refused_reply_for q r 5).
@@ -75,19 +76,19 @@ Print Assumptions D02_acl.
    to a forge-nxdomain route (C15_actions: decide = RBlocked iff that) is answered NXDOMAIN -- always
    answered: only REFUSED is ever withheld -- with no upstream query and no change to cache, store or
    buckets. *)
-Theorem D03_forge_nxdomain : forall mac c st t_ns t_s client port local tcp b u id eo st' out qs q,
+Theorem D03_forge_nxdomain : forall mac c st t_ns t_ins t_s client port local tcp b u id eo st' out qs q,
   decode b = Ok q -> bytes_ok b = true -> wf_opts eo = true ->
   Acl.dns_gate (c_acls c) client = Acl.DnsPassedOn -> qtype q <> 255 -> port <> 53 ->
   DnsRoute.decide (c_routes c) (qname q) (rd q) = DnsRoute.RBlocked ->
-  dns_step mac c st t_ns t_s client port local tcp b u id eo = Ok (st', out, qs) ->
+  dns_step mac c st t_ns t_ins t_s client port local tcp b u id eo = Ok (st', out, qs) ->
   qs = [] /\ s_cache st' = s_cache st /\ s_store st' = s_store st /\ s_buckets st' = s_buckets st /\
   exists bytes r, out = Some bytes /\ strict_decode bytes = Some r /\ refused_reply_for q r 3.
 Proof. exact d03_forge. Qed.
-Check D03_forge_nxdomain : forall mac c st t_ns t_s client port local tcp b u id eo st' out qs q,
+Check D03_forge_nxdomain : forall mac c st t_ns t_ins t_s client port local tcp b u id eo st' out qs q,
   decode b = Ok q -> bytes_ok b = true -> wf_opts eo = true ->
   Acl.dns_gate (c_acls c) client = Acl.DnsPassedOn -> qtype q <> 255 -> port <> 53 ->
   DnsRoute.decide (c_routes c) (qname q) (rd q) = DnsRoute.RBlocked ->
-  dns_step mac c st t_ns t_s client port local tcp b u id eo = Ok (st', out, qs) ->
+  dns_step mac c st t_ns t_ins t_s client port local tcp b u id eo = Ok (st', out, qs) ->
   qs = [] /\ s_cache st' = s_cache st /\ s_store st' = s_store st /\ s_buckets st' = s_buckets st /\
   exists bytes r, out = Some bytes /\ strict_decode bytes = Some r /\ refused_reply_for q r 3.
 Print Assumptions D03_forge_nxdomain.
@@ -98,9 +99,9 @@ Print Assumptions D03_forge_nxdomain.
    the client's transport class: UDP, or TCP for a TCP client), or UDP followed by TCP when the UDP
    answer had another id or TC set -- all to that route's server, all the same octets: the
    serialisation of outquery id q (C03_outquery_question: the client's question). *)
-Theorem D03_forward_only : forall mac c st t_ns t_s client port local tcp b u id eo st' out qs q,
+Theorem D03_forward_only : forall mac c st t_ns t_ins t_s client port local tcp b u id eo st' out qs q,
   st_ok t_s st -> decode b = Ok q ->
-  dns_step mac c st t_ns t_s client port local tcp b u id eo = Ok (st', out, qs) -> qs <> [] ->
+  dns_step mac c st t_ns t_ins t_s client port local tcp b u id eo = Ok (st', out, qs) -> qs <> [] ->
   exists srv qb,
     Acl.dns_gate (c_acls c) client = Acl.DnsPassedOn /\ qtype q <> 255 /\ port <> 53 /\
     DnsRoute.decide (c_routes c) (qname q) (rd q) = DnsRoute.RForward srv /\ rd q = true /\
@@ -109,9 +110,9 @@ Theorem D03_forward_only : forall mac c st t_ns t_s client port local tcp b u id
     (qs = [(srv, true, qb)] \/ qs = [(srv, false, qb)] \/ qs = [(srv, false, qb); (srv, true, qb)]) /\
     (qclass q <> 1 \/ DnsCache.get_entry (s_cache st) (key_of q) t_ns = None).
 Proof. exact d03_forward. Qed.
-Check D03_forward_only : forall mac c st t_ns t_s client port local tcp b u id eo st' out qs q,
+Check D03_forward_only : forall mac c st t_ns t_ins t_s client port local tcp b u id eo st' out qs q,
   st_ok t_s st -> decode b = Ok q ->
-  dns_step mac c st t_ns t_s client port local tcp b u id eo = Ok (st', out, qs) -> qs <> [] ->
+  dns_step mac c st t_ns t_ins t_s client port local tcp b u id eo = Ok (st', out, qs) -> qs <> [] ->
   exists srv qb,
     Acl.dns_gate (c_acls c) client = Acl.DnsPassedOn /\ qtype q <> 255 /\ port <> 53 /\
     DnsRoute.decide (c_routes c) (qname q) (rd q) = DnsRoute.RForward srv /\ rd q = true /\
@@ -130,10 +131,10 @@ Print Assumptions D03_forward_only.
    (decoded from its octets; d = 0) OR the packet stored under the identical (name, type, DO, CD)
    key, d = whole seconds since it was stored, d <= its smallest TTL <= every TTL.
    Composes C14 (decode/encode), C06 (cache), C03 (assembly), C04 (size limit). *)
-Theorem D04_faithful : forall mac c st t_ns t_s client port local tcp b u id eo st' bytes qs q srv,
+Theorem D04_faithful : forall mac c st t_ns t_ins t_s client port local tcp b u id eo st' bytes qs q srv,
   st_ok t_s st -> up_ok u -> bytes_ok b = true -> wf_opts eo = true ->
   decode b = Ok q -> front c client port q = Ok (ToServer srv) ->
-  dns_step mac c st t_ns t_s client port local tcp b u id eo = Ok (st', Some bytes, qs) ->
+  dns_step mac c st t_ns t_ins t_s client port local tcp b u id eo = Ok (st', Some bytes, qs) ->
   lenN bytes <= N.max (response_size_limit tcp (bufsize q)) 512 /\
   ((exists r, strict_decode bytes = Some r /\ refused_reply_for q r 2)
    \/
@@ -150,10 +151,10 @@ Theorem D04_faithful : forall mac c st t_ns t_s client port local tcp b u id eo 
      (t = false -> answer r = answer m' /\ nameserver r = nameserver m' /\ additional r = additional m' /\
                    rcode r = rcode m0)).
 Proof. exact d04_faithful. Qed.
-Check D04_faithful : forall mac c st t_ns t_s client port local tcp b u id eo st' bytes qs q srv,
+Check D04_faithful : forall mac c st t_ns t_ins t_s client port local tcp b u id eo st' bytes qs q srv,
   st_ok t_s st -> up_ok u -> bytes_ok b = true -> wf_opts eo = true ->
   decode b = Ok q -> front c client port q = Ok (ToServer srv) ->
-  dns_step mac c st t_ns t_s client port local tcp b u id eo = Ok (st', Some bytes, qs) ->
+  dns_step mac c st t_ns t_ins t_s client port local tcp b u id eo = Ok (st', Some bytes, qs) ->
   lenN bytes <= N.max (response_size_limit tcp (bufsize q)) 512 /\
   ((exists r, strict_decode bytes = Some r /\ refused_reply_for q r 2)
    \/
@@ -176,9 +177,9 @@ Print Assumptions D04_faithful.
    lifetime, lifetime = smallest TTL, served TTLs = stored - whole seconds elapsed ([is_hit]) -- OR
    from the upstream's answer to the query sent for it, and that only when the cache had no live
    entry for the key (or the class is not IN). *)
-Theorem D05_hit_or_fetch : forall mac c st t_ns t_s client port local tcp b u id eo st' out qs q srv,
+Theorem D05_hit_or_fetch : forall mac c st t_ns t_ins t_s client port local tcp b u id eo st' out qs q srv,
   st_ok t_s st -> decode b = Ok q -> front c client port q = Ok (ToServer srv) ->
-  dns_step mac c st t_ns t_s client port local tcp b u id eo = Ok (st', out, qs) ->
+  dns_step mac c st t_ns t_ins t_s client port local tcp b u id eo = Ok (st', out, qs) ->
   exists r bytes,
     wire_bytes q tcp (reply_of q r eo) = Ok bytes /\ (out = None \/ out = Some bytes) /\
     ((qs = [] /\ s_cache st' = s_cache st /\ s_store st' = s_store st /\ is_hit st q t_ns r)
@@ -186,9 +187,9 @@ Theorem D05_hit_or_fetch : forall mac c st t_ns t_s client port local tcp b u id
      (qs <> [] /\ r = fst (out_query tcp id u) /\
       (qclass q <> 1 \/ DnsCache.get_entry (s_cache st) (key_of q) t_ns = None))).
 Proof. exact served_step. Qed.
-Check D05_hit_or_fetch : forall mac c st t_ns t_s client port local tcp b u id eo st' out qs q srv,
+Check D05_hit_or_fetch : forall mac c st t_ns t_ins t_s client port local tcp b u id eo st' out qs q srv,
   st_ok t_s st -> decode b = Ok q -> front c client port q = Ok (ToServer srv) ->
-  dns_step mac c st t_ns t_s client port local tcp b u id eo = Ok (st', out, qs) ->
+  dns_step mac c st t_ns t_ins t_s client port local tcp b u id eo = Ok (st', out, qs) ->
   exists r bytes,
     wire_bytes q tcp (reply_of q r eo) = Ok bytes /\ (out = None \/ out = Some bytes) /\
     ((qs = [] /\ s_cache st' = s_cache st /\ s_store st' = s_store st /\ is_hit st q t_ns r)
